@@ -121,7 +121,9 @@ Definition five_normal (t : five) : five :=
          (match f_query t with Some q => Some (pct_norm false q) | None => None end)
          (match f_frag t with Some f => Some (pct_norm false f) | None => None end).
 
-Definition normal_text (s : text) : text := recompose (five_normal (five_of_text s)).
+(* as for resolution, a host-less normal form whose path begins with "//" is guarded by "/." so that
+   the text is not read back as an authority *)
+Definition normal_text (s : text) : text := recompose (guard_slashes (five_normal (five_of_text s))).
 
 (* the three shapes in which uriparser 0.9.8 leaves the specification (relative-path references only) *)
 Definition rel_path_ref (t : five) : bool :=
